@@ -7,6 +7,7 @@ import Driver.Common
      P <start> <old> <fmt> <nargs> <arg>… T <n> (<frag> <val> <out>)…     print_to_with on a String sink holding <old>, from <start>
      K …same…                                                              same run; the harness additionally checks "sink unchanged on FormatError"
      M <start> <old> <fmt> <nargs> <arg>…                                  format outside the grammar: only "does it leave its buffers?"
+     J <start> <old> <fmt> <nargs> <arg>…                                  a specification libc rejects: harness-only probe (the model's `prim` is total)
    arg ::= i <int64> | f <16 hex digits: bits of the double> | s <bytes> | A <n> <arg>… | U <n> <arg>… | L <n> <arg>…
    table entry: what libc prints for fragment <frag> with value <val> ::= i<int64> | d<bits> | s<bytes>   (the model's `prim`)
 
@@ -208,5 +209,9 @@ def main (args : List String) : IO Unit := do
     | "M" :: ws =>
       match FmtDrv.parseOp ws false with
       | some op => if FmtDrv.validOp op then FmtDrv.runM op else IO.println "O bad-op"
+      | none => IO.println "O bad-op"
+    | "J" :: ws =>
+      match FmtDrv.parseOp ws false with
+      | some op => if FmtDrv.validOp op then IO.println "O J" else IO.println "O bad-op"
       | none => IO.println "O bad-op"
     | _ => IO.println "O bad-op"
